@@ -3,6 +3,8 @@
 An operation is a plain dict {"op", "args", "kw"} that can be printed, replayed and applied to several
 objects identically (callables are described by parameters and rebuilt on application).
 """
+import math
+
 import numpy as np
 
 from . import _rfa as R
@@ -17,7 +19,13 @@ MAX_LEN = 20000
 SPLINE_MAX = 3000
 
 
+TREND_FAMILIES = ["poly", "sin", "const", "npscalar", "poly_sum", "poly_dot", "daily_inplace", "math_sin", "step"]
+
+
 def trend_fun(desc):
+    """user callables (x) -> y_shift, the way callers write them.  All are pure functions of a NUMBER; several are
+    not elementwise maps of an array (they reduce over their own terms, branch on the argument, use math.*) and one
+    updates its local argument in place - harmless for a number, destructive for a live array handed over instead."""
     kind, c = desc["family"], desc["coef"]
     if kind == "poly":
         return lambda t: c[0] + c[1] * t + c[2] * t * t + c[3] * t ** 3
@@ -27,7 +35,49 @@ def trend_fun(desc):
         return lambda t: c[0]
     if kind == "npscalar":
         return lambda t: np.float64(c[0] * t + c[1])
+    if kind == "poly_sum":          # polynomial written as a sum over its terms
+        return lambda t: np.sum([ck * t ** k for k, ck in enumerate(c)])
+    if kind == "poly_dot":          # ... or as a dot product with the vector of powers
+        coefs, powers = np.array(c, dtype=float), np.arange(len(c), dtype=float)
+        return lambda t: np.dot(coefs, t ** powers)
+    if kind == "daily_inplace":     # periodic pattern: fold the argument into one period first
+        def daily(t):
+            t %= c[1]
+            return c[0] * np.sin(2.0 * np.pi * t / c[1] + c[2])
+        return daily
+    if kind == "math_sin":
+        return lambda t: c[0] * math.sin(c[1] * t + c[2])
+    if kind == "step":
+        return lambda t: c[0] if t < c[1] else c[2]
     raise KeyError(kind)
+
+
+def gen_trend(rng, x, y, normalized, families=None):
+    """a trend description {"family", "coef"} scaled to the series (shared by C09, C14, C20)"""
+    fams = families or TREND_FAMILIES
+    fam = fams[int(rng.integers(0, len(fams)))]
+    mag = float(np.max(np.abs(y))) or 1.0
+    span = float(x[-1] - x[0]) or 1.0
+    c = [float(v) for v in rng.normal(0, 1, 4)]
+    s = 1.0 if normalized else max(abs(float(x[0])), abs(float(x[-1])), 1.0)
+    if fam in ("poly", "poly_sum", "poly_dot"):
+        c = [mag * c[0], mag * c[1] / s, mag * c[2] / s ** 2, mag * c[3] / s ** 3]
+        if fam == "poly_dot" and rng.integers(0, 2):
+            # as many terms as the series has samples (<= 6): an array argument of that length would not even fail
+            k = min(len(x), 6)
+            c = [mag * float(v) / s ** j for j, v in enumerate(rng.normal(0, 1, k))]
+    elif fam in ("sin", "math_sin"):
+        c = [mag * c[0], (c[1] * 6.0) if normalized else c[1] * 6.0 / span, c[2]]
+    elif fam == "const":
+        c = [mag * c[0]]
+    elif fam == "daily_inplace":
+        c = [mag * c[0], (1.0 if normalized else span) / float(rng.choice([1.0, 2.5, 7.0])), c[2]]
+    elif fam == "step":
+        lo, hi = (0.0, 1.0) if normalized else (float(x[0]), float(x[-1]))
+        c = [mag * c[0], lo + (hi - lo) * float(rng.uniform(0.1, 0.9)), mag * c[2]]
+    else:
+        c = [mag * c[0] / s, mag * c[1]]
+    return {"family": fam, "coef": c}
 
 
 def match_admissible(x, rx):
@@ -121,22 +171,10 @@ def _gen_op(rng, wv, allow=None, new_x_container=True):
             if n >= 2 and nr >= 2 and n * r <= MAX_LEN and nr * r <= MAX_LEN:
                 return {"op": op, "args": [r], "kw": {}}
         elif op == "trend":
-            fam = ["poly", "sin", "const", "npscalar"][int(rng.integers(0, 4))]
-            span = float(x[-1] - x[0]) or 1.0
-            mag = float(np.max(np.abs(y))) or 1.0
-            c = [float(v) for v in rng.normal(0, 1, 4)]
             normalized = bool(rng.integers(0, 2))
-            if fam == "poly":
-                s = 1.0 if normalized else max(abs(float(x[0])), abs(float(x[-1])), 1.0)
-                c = [mag * c[0], mag * c[1] / s, mag * c[2] / s ** 2, mag * c[3] / s ** 3]
-            elif fam == "sin":
-                c = [mag * c[0], (c[1] * 6.0) if normalized else c[1] * 6.0 / span, c[2]]
-            elif fam == "const":
-                c = [mag * c[0]]
-            else:
-                s = 1.0 if normalized else max(abs(float(x[0])), abs(float(x[-1])), 1.0)
-                c = [mag * c[0] / s, mag * c[1]]
-            return {"op": op, "args": [], "kw": {"normalized": normalized}, "trend": {"family": fam, "coef": c}}
+            if normalized and n < 2:
+                continue
+            return {"op": op, "args": [], "kw": {"normalized": normalized}, "trend": gen_trend(rng, x, y, normalized)}
         elif op == "smooth":
             if 5 <= n <= SPLINE_MAX:
                 return {"op": op, "args": [float(rng.choice([0.0, 0.0, 1e-3, 0.1, 1.0]))], "kw": {}}
